@@ -254,6 +254,18 @@ theorem C14_terms_key_asc_exact_under_truncation (p : TermsP) (sub : Req) (ho : 
   unfold mergedTerms at h
   rw [h, finalize_collect_pv]
 
+/-- … and so is `sum_other_doc_count` (what the segments cut plus what the final `size` cut removes
+is exactly what the direct computation leaves out); only `doc_count_error_upper_bound` is then an
+over-estimate (the code reports the first cut count although no shown count can be wrong). -/
+theorem C14_terms_key_asc_other_exact_under_truncation (p : TermsP) (sub : Req) (ho : p.order = .keyAsc)
+    (hsz : p.size ≤ p.segSize) (hmdc : p.minDocCount ≤ 1) (hsub : sub.cutFree = true) (parts : List (List Doc)) :
+    (finalize (M := M) (.terms p sub) (mergeFruits (.terms p sub) (parts.map (collectSeg (.terms p sub))))).2.1
+      = (evalAggPV M (.terms p sub) parts.flatten).2.1 := by
+  rw [C14_mergeFruits_eq_fold]
+  have h := terms_keyAsc_other_exact (M := M) p sub ho hsz hmdc (harvest_of_cutFree sub hsub) parts
+  unfold mergedTerms at h
+  rw [h, finalize_collect_pv]
+
 /-- the same bounds for EVERY merge schedule (any order, any grouping) of the truncated segment
 fruits, not only for the collector's own fold -/
 theorem C14_terms_error_bound_any_schedule (p : TermsP) (sub : Req) (parts : List (List Doc))
@@ -609,6 +621,11 @@ example : (finalize (M := Int) (.terms ⟨0, Option.none, 1, 1, 1, .keyAsc⟩ .n
     (mergeFruits (.terms ⟨0, Option.none, 1, 1, 1, .keyAsc⟩ .none)
       ([[[(0, [3])], [(0, [1])]], [[(0, [2])], [(0, [1])]]].map
         (collectSeg (M := Int) (.terms ⟨0, Option.none, 1, 1, 1, .keyAsc⟩ .none))))).1 = [(1, 2, ())] := by decide +kernel
+/-- same two cut segments: one bucket shown, the three other term occurrences are all in sum_other_doc_count, error bound 2 -/
+example : (finalize (M := Int) (.terms ⟨0, Option.none, 1, 1, 1, .keyAsc⟩ .none)
+    (mergeFruits (.terms ⟨0, Option.none, 1, 1, 1, .keyAsc⟩ .none)
+      ([[[(0, [3])], [(0, [1])]], [[(0, [2])], [(0, [1])]]].map
+        (collectSeg (M := Int) (.terms ⟨0, Option.none, 1, 1, 1, .keyAsc⟩ .none))))).2 = (2, 2) := by decide +kernel
 example : [0, 10, 20].Pairwise (fun a b : Int => a < b) := by decide
 example : ([1, 2, 3] : List Int).Nodup ∧ ∀ d ∈ exTDocs, ∀ k ∈ termKeys ⟨0, Option.none, 2, 2, 1, .countDesc⟩ d, k ∈ [1, 2, 3] := by
   decide
